@@ -514,6 +514,7 @@ type minInst struct {
 	nilSet     bool // isolated == 4: pass settings == nil
 	lsKnob     int  // explicit Linesearcher parameters (0 = zero value)
 	stepKnob   int  // StepSizer of GradientDescent / CG (0 = nil)
+	lsTies     bool // ListSearch: an even objective and sign-flipped rows, so that several rows attain the minimum
 	nmVerts    bool // NelderMead: the initial simplex (initX first) and its values are supplied
 	cmaStop    int  // CmaEsChol.StopLogDet: 0 NaN (criterion off), 1 default, 2 +Inf (converged after the first generation)
 	costly     bool
@@ -541,6 +542,10 @@ var minCorpus = []struct {
 	// finding 10 (8a7acce): MoreThuente collapsed at rounding level
 	{mGD, 3, []float64{5, 2, 6}, []float64{-1, -3}, []float64{-1.5, -0.5}},
 	{mCGPRP, 0, []float64{6, -5, 6}, []float64{3, 2}, []float64{-2, 2.5}},
+	// started at the exact minimizer (finding 30)
+	{mBFGS, 0, []float64{2, 1, 3}, []float64{0, 0}, []float64{0, 0}},
+	{mGD, 1, []float64{4, 0, 1}, []float64{4, -1}, []float64{1, -1}},
+	{mLBFGS, 3, []float64{2}, []float64{0}, []float64{0}},
 }
 
 func corpusMinimize(k int) *minInst {
@@ -735,6 +740,35 @@ func drawMinimize(t *simrt.Tape) *minInst {
 	}
 	if in.method == mListSearch {
 		in.rows = small(12)
+		if in.rows >= 2 && in.obj.bad == 0 && t.Choose(simrt.KWorkload, 3) == 2 {
+			// ties: the objective is made even (f(|x|)) and every odd row is
+			// the negative of the row before it
+			in.lsTies = true
+			inner := in.obj.f
+			in.obj.f = func(x []float64) float64 {
+				y := make([]float64, len(x))
+				for i, v := range x {
+					y[i] = math.Abs(v)
+				}
+				return inner(y)
+			}
+			in.obj.grad, in.obj.hess = nil, nil
+			in.obj.name = "(" + in.obj.name + ") of |x|"
+		}
+		if in.hasStatus && in.statusAt > 0 && t.Choose(simrt.KFault, 2) == 1 {
+			// Problem.Status ends the run just before ListSearch hands out
+			// its last rows: two terminal conditions close together
+			nt := in.conc
+			if nt < 1 {
+				nt = 1
+			}
+			if in.rows-nt >= 1 {
+				in.statusAt = in.rows - nt - t.Choose(simrt.KFault, 2)
+				if in.statusAt < 1 {
+					in.statusAt = 1
+				}
+			}
+		}
 	}
 	if in.method == mNelderMead {
 		in.nmVerts = t.Choose(simrt.KWorkload, 4) == 3
@@ -925,6 +959,13 @@ func (in *minInst) build() *minRun {
 		for i := 0; i < in.rows; i++ {
 			for j := 0; j < in.dim; j++ {
 				r.locs.Set(i, j, math.Round((g.Float64()*8-4)*16)/16)
+			}
+		}
+		if in.lsTies {
+			for i := 1; i < in.rows; i += 2 {
+				for j := 0; j < in.dim; j++ {
+					r.locs.Set(i, j, -r.locs.At(i-1, j))
+				}
 			}
 		}
 		r.method = &optimize.ListSearch{Locs: r.locs}
@@ -1160,7 +1201,7 @@ func runMinimize(t *simrt.Tape, rc *RunCtx) *Violation {
 	if c19 {
 		rc.declare("recorder_error_injected", "status_callback_terminated_run", "runtime_limit_hit")
 	}
-	rc.declare("method_value_reused", "limit_overshoot_by_concurrency", "result_nil_early_error", "nan_or_inf_objective_hit", "method_done_with_tasks_in_flight", "trailing_major_iterations", "init_values_used", "isolated_cause_run", "default_settings_run_abandoned_still_converging",
+	rc.declare("listsearch_minimum_attained_by_several_rows", "start_at_stationary_point", "method_value_reused", "limit_overshoot_by_concurrency", "result_nil_early_error", "nan_or_inf_objective_hit", "method_done_with_tasks_in_flight", "trailing_major_iterations", "init_values_used", "isolated_cause_run", "default_settings_run_abandoned_still_converging",
 		"concurrent_evaluations_overlapped", "tiny_limit_below_one_generation")
 
 	single := !isGlobal(in.method) // one task token circulates
@@ -1526,6 +1567,46 @@ func checkC19(rc *RunCtx, in *minInst, r *minRun, nTasks int) *Violation {
 		}
 	}
 
+	// ListSearch with several rows attaining the minimum: the answer is the
+	// one a single task gives, the first such row of the list among the rows
+	// evaluated, whatever order the results came back in ("results do not
+	// depend on goroutine scheduling")
+	if err == nil && in.method == mListSearch && in.lsTies && r.locs != nil && !log.overflow && log.n > 0 && st.MajorIterations > 0 && in.prime == 0 {
+		rc.oracle("listsearch-first-of-ties")
+		evaluated := func(row []float64) bool {
+			for k := 0; k < log.n; k++ {
+				same := true
+				for j := 0; j < in.dim; j++ {
+					same = same && math.Float64bits(log.xs[k*in.dim+j]) == math.Float64bits(row[j])
+				}
+				if same {
+					return true
+				}
+			}
+			return false
+		}
+		min := log.minValue()
+		first, ties := -1, 0
+		for i := 0; i < in.rows; i++ {
+			row := mat.Row(nil, i, r.locs)
+			if evaluated(row) && in.obj.f(row) == min {
+				ties++
+				if first < 0 {
+					first = i
+				}
+			}
+		}
+		if ties >= 2 {
+			rc.probe("listsearch_minimum_attained_by_several_rows", 1)
+			want := mat.Row(nil, first, r.locs)
+			for j := range want {
+				if math.Float64bits(want[j]) != math.Float64bits(res.X[j]) {
+					return &Violation{prop, "minimize/listsearch/tie-broken-by-arrival-order", fmt.Sprintf("ListSearch: %d evaluated rows attain the minimum %v; the first of them in the list is row %d = %v, Result.X = %v (Concurrent=%d, status %v)", ties, min, first, want, res.X, in.conc, res.Status)}
+				}
+			}
+		}
+	}
+
 	// Oracle 5: the status names the cause (soundness)
 	rc.oracle("status-soundness")
 	bad := func(why string) *Violation {
@@ -1606,6 +1687,14 @@ func checkC19(rc *RunCtx, in *minInst, r *minRun, nTasks int) *Violation {
 		}
 		if in.method == mCmaEs && in.cmaStop == 0 {
 			return bad("CmaEsChol.StopLogDet is NaN, which switches its convergence criterion off")
+		}
+		// ListSearch ends itself once every row has been handed out; at that
+		// moment at most nTasks-1 evaluations are outstanding, and Problem.Status
+		// is asked once per finished evaluation. A terminal answer of
+		// Problem.Status at a call before that came first, and the first
+		// terminal condition is the one that names the run.
+		if in.method == mListSearch && in.hasStatus && in.statusAt > 0 && in.statusAt <= in.rows-nTasks && in.prime == 0 {
+			return bad(fmt.Sprintf("Problem.Status ended the run at its call %d (of one call per evaluation, %d rows, %d tasks), before ListSearch could have handed out its last row; its answer was dropped", in.statusAt, in.rows, nTasks))
 		}
 	case optimize.Failure:
 		if err == nil {
@@ -1692,7 +1781,9 @@ func checkC19(rc *RunCtx, in *minInst, r *minRun, nTasks int) *Violation {
 				best = f
 				continue
 			}
-			if f < best && best-f > rel*math.Max(math.Abs(f), math.Abs(best))+abs {
+			// (a decrease from a non-finite best value is significant whatever
+			// 0*Inf evaluates to; a NaN best value is replaced by any number)
+			if (f < best && (math.IsInf(best, 1) || best-f > rel*math.Max(math.Abs(f), math.Abs(best))+abs)) || (math.IsNaN(best) && !math.IsNaN(f)) {
 				best, count = f, 0
 				continue
 			}
@@ -1806,6 +1897,25 @@ func checkC19(rc *RunCtx, in *minInst, r *minRun, nTasks int) *Violation {
 					return &Violation{prop, "minimize/default-settings/not-at-minimizer/" + name + "/" + ls + "/" + cause, fmt.Sprintf("%s with default settings on %s from %v stopped with status %v at F=%v, X=%v; the minimum is %v at %v (%d func evaluations, %d major iterations)",
 						name, in.obj.name, in.initX, res.Status, res.F, res.X, fstar, xs.RawVector().Data, st.FuncEvaluations, st.MajorIterations)}
 				}
+			}
+		}
+	}
+
+	// A gradient method started at a stationary point of a finite objective
+	// (gradient exactly zero) with the gradient test in effect has converged
+	// before it starts: "the status names the condition that stopped the run".
+	if usesLS(in.method) && !in.nilMethod && in.obj.bad == 0 && in.obj.grad != nil && in.isolated == 4 && in.knob != 3 && in.prime == 0 {
+		g0 := make([]float64, in.dim)
+		in.obj.grad(g0, in.initX)
+		zero := true
+		for _, v := range g0 {
+			zero = zero && v == 0
+		}
+		if zero {
+			rc.oracle("stationary-start")
+			rc.probe("start_at_stationary_point", 1)
+			if res.Status != optimize.GradientThreshold || err != nil {
+				return &Violation{prop, "minimize/status/stationary-start", fmt.Sprintf("%s with default settings started at %v, where the gradient of %s is exactly zero, returned status %v, err %v; the condition that stops this run is the gradient threshold", name, in.initX, in.obj.name, res.Status, err)}
 			}
 		}
 	}
